@@ -360,7 +360,9 @@ var lexHelpers = map[string]bool{"(*lexer).next": true, "(*lexer).peek": true, "
 	"(*lexer).accept": true, "(*lexer).acceptRun": true, "(*lexer).emit": true, "(*lexer).ignore": true,
 	"(*lexer).errorf": true, "(*lexer).nextItem": true, "(*lexer).run": true, "skipSpace": true, "maybeEmitText": true,
 	"(*tree).next": true, "(*tree).peek": true, "(*tree).expect": true, "(*tree).nextNonComment": true,
-	"(*tree).backup": true, "(*tree).backup2": true, "verifLex": true, "(*lexer).drain": true}
+	"(*tree).backup": true, "(*tree).backup2": true, "verifLex": true, "(*lexer).drain": true,
+	"isEndOfLine": true, "isSpace": true, "isSpaceEOL": true, "isAlphaNumeric": true, "isDigit": true,
+	"isLetterOrUnderscore": true, "allSpaceWithNewline": true}
 
 // innermostParseFn returns the innermost function of package parse in a
 // goroutine block of a stack dump that is not a small helper.
@@ -514,6 +516,7 @@ type ProbeReport struct {
 	Kind     string `json:"kind,omitempty"`
 	Frame1   string `json:"frame1,omitempty"`
 	Frame2   string `json:"frame2,omitempty"`
+	Steps    int64  `json:"steps"`
 	Events1  int64  `json:"events1"`
 	Events2  int64  `json:"events2"`
 	WaitedMs int64  `json:"waitedMs"`
@@ -540,8 +543,13 @@ func probeMain(path string) {
 			wait = time.Duration(ms) * time.Millisecond
 		}
 	}
-	var events int64
-	parse.VerifLex = func(ev string, l interface{}, a, b int) { atomic.AddInt64(&events, 1) }
+	var events, steps int64
+	parse.VerifLex = func(ev string, l interface{}, a, b int) {
+		atomic.AddInt64(&events, 1)
+		if ev == "step" {
+			atomic.AddInt64(&steps, 1)
+		}
+	}
 	done := make(chan parseDone, 1)
 	start := time.Now()
 	go func() {
@@ -580,6 +588,7 @@ func probeMain(path string) {
 		rep.Events2 = atomic.LoadInt64(&events)
 		rep.Kind, rep.Frame1, rep.Frame2, rep.Stack = k1, f1, f2, trimStack(st)
 	}
+	rep.Steps = atomic.LoadInt64(&steps)
 	rep.WaitedMs = time.Since(start).Milliseconds()
 	out, _ := json.Marshal(rep)
 	fmt.Println(string(out))
